@@ -405,6 +405,32 @@ def extras(ctx, n):
                      expected="sector sizes", tags={"function": "encompassing_sector_size", "variant": "dims-order"})
 
 
+        # --- diebold_mariano: several series per call, the series dimension stored first or second
+        from scores.stats.statistical_tests import diebold_mariano
+        k, nT = rng.choice([2, 3]), rng.choice([6, 7, 9])
+        rows = np.array([[rng.randint(-12, 12) / 4 for _ in range(nT)] for _ in range(k)], dtype=float)
+        hs = [rng.randint(1, 3) for _ in range(k)]
+        desc = {"function": "diebold_mariano", "rows": core.canon(rows.tolist()), "h": hs}
+        try:
+            res = []
+            for order in (("series", "time"), ("time", "series")):
+                da = xr.DataArray(rows if order[0] == "series" else rows.T.copy(), dims=[R.fresh(d) for d in order],
+                                  coords={"series": list(range(k)), "time": list(range(nT)), "h_": ("series", hs)})
+                with np.errstate(all="ignore"):
+                    r = diebold_mariano(da, R.fresh("series"), R.fresh("h_"), method="HLN")
+                res.append({v: [float(x) for x in np.asarray(r[v].sel(series=list(range(k))).values).ravel()] for v in r.data_vars})
+                ctx.case("extras", dict(desc, stored=list(order)))
+                ctx.tag("variant:dm-relayout")
+            for v in res[0]:
+                if not all(core.close_ff(a, b) for a, b in zip(res[0][v], res[1][v])):
+                    ctx.fail("extras", "property", "diebold_mariano", "value-depends-on-layout", dict(desc, variable=v), observed=res[1][v],
+                             expected=res[0][v], tags={"function": "diebold_mariano", "variant": "relayout"})
+                    break
+        except Exception as ex:
+            ctx.fail("extras", "property", "diebold_mariano", "exception:" + core.exc_class(ex), desc, observed=str(ex)[:200],
+                     expected="a Dataset", tags={"function": "diebold_mariano", "variant": "relayout"})
+
+
 def correspondence(ctx):
     """layout tie of the model: Lean scoreEval on a pointwise array handed over in a PERMUTED dimension order
     equals the implementation's aggregate (Arr.get is by name, not by position)"""
@@ -459,7 +485,7 @@ def oracle(ctx, boost):
 def replay(ctx, payload):
     c = core.Ctx("C04", "quick", payload.get("seed", 0))
     site = payload.get("site", "")
-    if site in ("isotonic_fit", "cdf_envelope", "flip_flop_index", "encompassing_sector_size"):
+    if site in ("isotonic_fit", "cdf_envelope", "flip_flop_index", "encompassing_sector_size", "diebold_mariano"):
         extras(c, 60)
         return any(f["site"] == site for f in c.failures)
     if site.startswith("pandas."):
